@@ -169,11 +169,11 @@ def run_case(case):
             bump(res, 'entry:' + name)
             return res
     bump(res, 'entry:' + name)
-    if any(issubclass(w.category, (RuntimeWarning, UserWarning)) for w in wlist) and not all('SyntaxWarning' in str(w.category) for w in wlist):
-        num = [w for w in wlist if issubclass(w.category, RuntimeWarning) or 'ODEint' in str(w.category) or 'lsoda' in str(w.message).lower()]
-        if num:
-            bump(res, 'discarded_numerical_warnings')
-            return res
+    # (ODEintWarning derives from Warning directly, not from RuntimeWarning / UserWarning)
+    num = [w for w in wlist if issubclass(w.category, RuntimeWarning) or 'ODEint' in str(w.category) or 'lsoda' in str(w.message).lower() or 'excess work' in str(w.message).lower()]
+    if num:
+        bump(res, 'discarded_numerical_warnings')
+        return res
     bump(res, 'calls_checked')
     out = list(out)
     times = np.asarray(out[0], dtype=float)
